@@ -52,4 +52,7 @@ int get(int k);
 void setv(int a);
 int setv(const std::string &name, double v = 1.5);
 int add(const std::string &s);
+int mix(int a);
+int mix(int a, int b);
+int mix(const std::string &s);
 #endif
